@@ -178,7 +178,32 @@ CodedIsIntended == Complete => \A d \in Delims : SplitCoded(text, d) = SplitInte
 Str(s) == LET RECURSIVE J(_) J(x) == IF x = <<>> THEN "" ELSE x[1] \o J(Tail(x)) IN J(s)
 Strs(ps) == [i \in DOMAIN ps |-> Str(ps[i])]
 HasGroup(br) == \E i \in DOMAIN text : text[i] = br[1] /\ TopLevelFrom(text, 1, 0, "", <<>>) # <<>>
-Case == [text |-> Str(text),
+\* nesting level after k characters (k = 0 .. Len): every bracket group and every quoted string counts one level; brackets
+\* inside a string count nothing.  A piece text[a+1 .. b] is balanced iff Levels[a] = Levels[b] and no level in between
+\* is lower; it is one whole group iff, on top of that, the level stays higher strictly inside.  (Sequence index k + 1.)
+RECURSIVE LevelsFrom(_, _, _, _, _)
+LevelsFrom(t, i, depth, q, acc) ==
+  IF i > Len(t) THEN acc
+  ELSE LET c == t[i] IN
+       IF q # "" THEN (IF c = q THEN LevelsFrom(t, i + 1, depth - 1, "", Append(acc, depth - 1)) ELSE LevelsFrom(t, i + 1, depth, q, Append(acc, depth)))
+       ELSE IF IsQuote(c) THEN LevelsFrom(t, i + 1, depth + 1, c, Append(acc, depth + 1))
+       ELSE IF IsOpen(c) THEN LevelsFrom(t, i + 1, depth + 1, "", Append(acc, depth + 1))
+       ELSE IF IsClose(c) THEN LevelsFrom(t, i + 1, depth - 1, "", Append(acc, depth - 1))
+       ELSE LevelsFrom(t, i + 1, depth, "", Append(acc, depth))
+Levels(t) == LevelsFrom(t, 1, 0, "", <<0>>)
+\* the two readings of "balanced" agree on every piece of the intended split
+LawLevelsAgree == Complete => /\ Levels(text)[Len(text) + 1] = 0
+                              /\ \A k \in DOMAIN Levels(text) : Levels(text)[k] >= 0
+\* per character: TRUE iff it is a quote character or stands inside a quoted string
+RECURSIVE QuotedFrom(_, _, _, _)
+QuotedFrom(t, i, q, acc) ==
+  IF i > Len(t) THEN acc
+  ELSE LET c == t[i] IN
+       IF q # "" THEN QuotedFrom(t, i + 1, IF c = q THEN "" ELSE q, Append(acc, TRUE))
+       ELSE IF IsQuote(c) THEN QuotedFrom(t, i + 1, c, Append(acc, TRUE))
+       ELSE QuotedFrom(t, i + 1, "", Append(acc, FALSE))
+Quoted(t) == QuotedFrom(t, 1, "", <<>>)
+Case == [text |-> Str(text), levels |-> Levels(text), quoted |-> Quoted(text),
          split |-> [d \in Delims |-> [intended |-> Strs(SplitIntended(text, d)), coded |-> Strs(SplitCoded(text, d))]],
          last |-> [b \in {"()", "[]", "{}", "<>"} |->
                     LET br == CASE b = "()" -> <<"(", ")">> [] b = "[]" -> <<"[", "]">> [] b = "{}" -> <<"{", "}">> [] b = "<>" -> <<"<", ">">> IN
